@@ -519,7 +519,11 @@ class Printer:
             if n.get('hasInit'):
                 pre = self.stmt(parts.pop(0), ind + 1)
             if n.get('hasVar'):
-                raise Unsupported('if with condition variable')
+                # if (T x = init): clang lists the declaration, then the condition (x converted to bool); the variable
+                # is scoped to the whole if statement
+                if parts[0].get('kind') != 'DeclStmt' or n.get('isConstexpr'):
+                    raise Unsupported('if with condition variable of unexpected shape')
+                pre += self.stmt(parts.pop(0), ind + 1)
             if n.get('isConstexpr'):
                 # `if constexpr` in an instantiation: clang has evaluated the condition (ConstantExpr value) and
                 # discarded the other branch; only the taken branch is printed
@@ -534,7 +538,7 @@ class Printer:
             if len(parts) > 2:
                 s += f'{p}else\n' + self.block(parts[2], ind)
             if pre:
-                s = f'{p}{{\n{pre}{s}{p}}}\n'
+                s = f'{p}{{\n{pre}' + ''.join('  ' + ln + '\n' for ln in s.rstrip('\n').split('\n')) + f'{p}}}\n'
             return s
         if k == 'ForStmt':
             init, condvar, cond, inc, body = inner
